@@ -9,16 +9,17 @@ Import ListNotations.
 Lemma gen_ok : proto_ok gen_protos = true.
 Proof. vm_compute. reflexivity. Qed.
 
-Lemma gen_progs_wlb : forall bits opss,
-  Forall (fun p => wlb None false p = true) (gen_progs bits opss).
+Lemma gen_progs_ok : forall bits opss,
+  Forall (fun p => wlb None false p = true /\ pairs_ok p = true) (gen_progs bits opss).
 Proof.
   intros. unfold gen_progs. apply Forall_forall. intros p Hp. apply in_map_iff in Hp.
-  destruct Hp as (ops & <- & _). apply program_wlb. exact gen_ok.
+  destruct Hp as (ops & <- & _). destruct (program_ok gen_protos bits ops gen_ok) as ((W & Pp & _) & _).
+  split; assumption.
 Qed.
 
 Lemma gen_inv : forall bits opss sched,
-  Inv (ins_of (concat (gen_progs bits opss))) (run sched (init (gen_progs bits opss))).
-Proof. intros. apply reachable_inv. apply gen_progs_wlb. Qed.
+  Inv (flat_map ins_of (gen_progs bits opss)) (run sched (init (gen_progs bits opss))).
+Proof. intros. apply reachable_inv. apply gen_progs_ok. Qed.
 
 Lemma gen_mutex_invariant : forall bits opss sched,
   let s := run sched (init (gen_progs bits opss)) in
@@ -35,18 +36,28 @@ Proof. intros. exact (inv_no_race _ _ t1 t2 (gen_inv bits opss sched)). Qed.
 Lemma gen_find_whole : forall bits opss sched t th k r,
   nth_error (ths (run sched (init (gen_progs bits opss)))) t = Some th ->
   In (k, r) (results th) -> k <> key0 ->
-  r = [] \/ exists ops, In ops opss /\ In (OInsert k r) ops.
+  r = [] \/ exists ops o, In ops opss /\ In o ops /\ In (k, r) (ins_op o).
 Proof.
   intros bits opss sched t th k r Hn Hin Hk.
   destruct (inv_results _ _ t th k r (gen_inv bits opss sched) Hn Hin) as [E|[E|E]]; [left; exact E|contradiction|right].
-  unfold ins_of in E. apply in_flat_map in E. destruct E as (a & Ha & Hkv).
-  apply in_concat in Ha. destruct Ha as (p & Hp & Ha). unfold gen_progs in Hp. apply in_map_iff in Hp.
-  destruct Hp as (ops & <- & Hops). exists ops. split; [exact Hops|].
-  apply (ins_of_program gen_protos bits). unfold ins_of. apply in_flat_map. exists a. split; assumption.
+  apply in_flat_map in E. destruct E as (p & Hp & Hkv). unfold gen_progs in Hp. apply in_map_iff in Hp.
+  destruct Hp as (ops & <- & Hops). destruct (program_ok gen_protos bits ops gen_ok) as (_ & Hins).
+  rewrite Hins in Hkv. apply in_flat_map in Hkv. destruct Hkv as (o & Ho & Hkv).
+  exists ops, o. repeat split; assumption.
 Qed.
 
-(* any programs at all that pass the static lock-discipline check *)
+(* a slot is never observed half assigned by a thread that holds a lock:
+   outside the two member writes of the exclusive holder every slot holds a
+   stored (key, value) pair or the empty key *)
+Lemma gen_slot_consistent : forall bits opss sched t th j,
+  let s := run sched (init (gen_progs bits opss)) in
+  nth_error (ths s) t = Some th -> holds th <> None ->
+  (forall v r, acts th <> AWrFit j v :: r) ->
+  skey (mem s j) = key0 \/ In (skey (mem s j), sfit (mem s j)) (flat_map ins_of (gen_progs bits opss)).
+Proof. intros. exact (slot_ok_for_holder _ _ t th j (gen_inv bits opss sched) H H0 H1). Qed.
+
+(* any programs at all that pass the static checks *)
 Lemma any_no_data_race : forall progs sched t1 t2,
-  Forall (fun p => wlb None false p = true) progs ->
+  Forall (fun p => wlb None false p = true /\ pairs_ok p = true) progs ->
   race (run sched (init progs)) t1 t2 = false.
 Proof. intros progs sched t1 t2 H. exact (inv_no_race _ _ t1 t2 (reachable_inv progs sched H)). Qed.
